@@ -1,7 +1,12 @@
 // sim/san_opts.cpp -- sanitizer defaults: classify hits (exit code 77), no
 // LeakSanitizer (leaks are decided deterministically by the harness ledgers).
 // Non-inline and `used`, otherwise the definitions are never emitted.
+namespace sim { void rt_note_report(); }
 extern "C" {
+// TSan calls this hook after printing a report, with runtime locks held: do
+// nothing but note it (halt_on_error=0; the worker checks at the end of the
+// run, records the full plan and decision list, and exits with code 77).
+__attribute__((used, visibility("default"))) void __tsan_on_report(void*) { sim::rt_note_report(); }
 __attribute__((used, visibility("default"))) const char* __asan_default_options() {
     return "exitcode=77:halt_on_error=1:detect_leaks=0:abort_on_error=0:handle_abort=0:"
            "allocator_may_return_null=1:detect_stack_use_after_return=0";
@@ -10,6 +15,6 @@ __attribute__((used, visibility("default"))) const char* __ubsan_default_options
     return "exitcode=77:halt_on_error=1:print_stacktrace=1";
 }
 __attribute__((used, visibility("default"))) const char* __tsan_default_options() {
-    return "exitcode=77:halt_on_error=1:report_signal_unsafe=0:report_thread_leaks=0:second_deadlock_stack=1:history_size=4";
+    return "exitcode=77:halt_on_error=0:report_signal_unsafe=0:report_thread_leaks=0:second_deadlock_stack=1:history_size=4";
 }
 }
